@@ -50,7 +50,7 @@ def run(ctx):
         sy = fx.find(domain="sync")
         ctx.ob("K1", F, cls, "sync assignments:present", len(sy) >= 3, f"{len(sy)} sync assignments", 0)
         for a in sy:
-            G = B.guard_formula(a.guards)
+            G = a.eff()
             ok = B.entails(G, B.A("self.ce"))
             ctx.ob("K1", F, cls, f"{short(a.t, 40)} updated only under ce", ok,
                    "" if ok else f"`{a.t} <= {short(a.v, 40)}` under {B.show(G)}: state advances while the stream is stalled", a.line)
@@ -176,7 +176,7 @@ def run(ctx):
     # encoder special cases reference the same literals
     fx = fx_of(ctx, F, "SingleEncoder")
     k28 = [a for a in fx.find(domain="sync", target="code6b") if a.v == "48"]
-    ok = len(k28) == 1 and B.equivalent(B.guard_formula(k28[0].guards), B.from_expr("self.k & (self.d[:5] == 28)"))
+    ok = len(k28) == 1 and B.equivalent(k28[0].eff(), B.from_expr("self.k & (self.d[:5] == 28)"))
     ctx.ob("K3", F, "SingleEncoder", "K.28 encodes to 110000 (the slot patched in the decoder table)", ok, "" if ok else f"{[(a.v, a.gtext()) for a in k28]}")
     o4 = {a.v for a in fx.find(domain="comb", target="output_4b") if a.v in ("7", "8")}
     ctx.ob("K3", F, "SingleEncoder", "alternate D.x.7 emits 0111 / 1000 (the slots patched in the decoder table)", o4 == {"7", "8"}, f"{o4}")
